@@ -1,28 +1,23 @@
 (* C14 — stabilizer measurement.  Only statements, each closed by `exact`, each followed by Print Assumptions.
-   Proofs: Stab/MeasureProof.v (on top of Group.v, MulProof.v, GaussProof.v).
+   Proofs: Stab/MeasureProof.v (frame with the measured qubit first), PermProof.v (perm_row / unperm_row are a relabelling
+   of positions; transport of the generated group), MeasureOrig.v (original qubit order), DestructiveProof.v /
+   DestructiveDet.v (destructive branches), EqProof.v (`contains` decides membership, from the uniqueness of the reduced
+   row echelon form), Isotropic.v (n commuting independent generators on n qubits are a maximal commuting set),
+   MeasureFull.v (outcome of the deterministic branch, repeatability).
 
-   Frame.  `measure n p` moves the columns of qubit p to the front (`perm_row`), eliminates, edits rows, and moves the
-   columns back (`unperm_row`).  The group-level theorems are stated in that measured-qubit-first frame:
-     framed n p t      = map (perm_row n p) t          eliminated n p t = gauss n (framed n p t)
-     core_inplace n b tmp = the in-place result of the random branch before `map (unperm_row n p)`
-     zrow n b          = the row  (-1)^b Z_0
-   NOT proved (hence the `_partial` names): that perm_row / unperm_row are a relabelling of qubit positions at the group
-   level (transport of `gen` along the position permutation), the destructive branch at the group level, and everything that needs uniqueness of the reduced row echelon
-   form (`contains` decides membership: outcome of the deterministic branch, repeat outcome).  Full statements intended:
-     meas_random     : random_branch n p t = true -> valid n t -> p < n -> forall b,
-                         outcome (measure n p true b t) = b /\
-                         forall g, gen n (result (measure n p true b t)) g <->
-                                   exists k h, g = pmul (zpow p b k) h /\ gen n t h /\ commutes h (Z_p)
-     meas_determined : random_branch n p t = false -> valid n t -> p < n ->
-                         (gen n t (+Z_p) \/ gen n t (-Z_p)) /\ (outcome = false <-> gen n t (+Z_p)) /\
-                         same_group n (result (measure n p true b t)) t
-     meas_destructive: result of measure n p false b t generates { g restricted to positions <> p : g in the in-place
-                         group, g acts as I on p }, n-1 independent commuting generators
-     meas_repeat     : measure n p true b' (result (measure n p true b t)) returns the same outcome and the same group
-   These are covered by the exhaustive correspondence + numpy oracle (all states on 1..3 qubits) as a TEST only. *)
+   Notation.  zp n p = the Pauli string Z on qubit p;  zel s n p = i^s Z_p  (s = P0: +Z_p, s = P2: -Z_p);
+   valid n t = rows well-formed, pairwise commuting, independent;  remove_at p l = l with position p deleted.
+   The first block (frame with the measured qubit first: framed / eliminated / core_inplace / zrow) is kept because the
+   later theorems are derived from it; the statements of the property are the ones in the original frame:
+     C14_meas_random, C14_meas_determined, C14_meas_determined_outcome(_true), C14_meas_determined_pm,
+     C14_meas_random_destructive, C14_meas_determined_destructive, C14_meas_repeat.
+   What is still NOT formalised: the link stabilizer group <-> Hilbert-space state and the Born rule (probability 1/2
+   in the random branch is represented by "both coins are accepted and returned"); these are evaluated numerically by
+   the oracle of the check on every case. *)
 From Coq Require Import List Bool Arith.
 From SQ Require Import Base.ListUtil Stab.Pauli Stab.Kernels Stab.Gates Stab.Tableau Stab.Group Stab.GroupGates
-  Stab.GaussProof Stab.MeasureProof Stab.Examples.
+  Stab.GaussProof Stab.MeasureProof Stab.F2 Stab.TensorProof Stab.PermProof Stab.MeasureOrig Stab.Bridge Stab.DestructiveProof
+  Stab.EqProof Stab.Isotropic Stab.MeasureFull Stab.DestructiveDet Stab.Examples.
 Import ListNotations.
 
 (* random branch: the outcome is the coin, for both coins (hence both outcomes occur), in place and destructive *)
@@ -33,7 +28,7 @@ Print Assumptions C14_meas_random_outcome.
 
 (* random branch, in place: elimination keeps the group; exactly row 0 carries X/Y on the measured qubit; the result
    generates < (-1)^coin Z_0 > together with the remaining (Z_0-commuting) generators *)
-Theorem C14_meas_random_partial : forall n p coin t, 1 <= n ->
+Theorem C14_meas_random_framed : forall n p coin t, 1 <= n ->
   wf_tab n (framed n p t) -> commuting n (framed n p t) -> random_branch n p t = true ->
   let tmp := eliminated n p t in
   measure n p true coin t = (coin, n, map (unperm_row n p) (core_inplace n coin tmp)) /\
@@ -41,7 +36,7 @@ Theorem C14_meas_random_partial : forall n p coin t, 1 <= n ->
   get (nth 0 tmp []) 0 = true /\ (forall j, 1 <= j < length tmp -> get (nth j tmp []) 0 = false) /\
   same_group n (core_inplace n coin tmp) (zrow n coin :: skipn 1 tmp).
 Proof. exact meas_random_framed. Qed.
-Print Assumptions C14_meas_random_partial.
+Print Assumptions C14_meas_random_framed.
 
 (* the new generator really is (-1)^coin Z on the measured qubit, identity elsewhere *)
 Theorem C14_new_generator : forall n b, 1 <= n ->
@@ -50,28 +45,28 @@ Proof. exact decode_zrow. Qed.
 Print Assumptions C14_new_generator.
 
 (* deterministic branch, in place: nothing carries X/Y on the measured qubit and the group is unchanged *)
-Theorem C14_meas_determined_partial : forall n p coin t, 1 <= n ->
+Theorem C14_meas_determined_framed : forall n p coin t, 1 <= n ->
   commuting n (framed n p t) -> random_branch n p t = false ->
   let tmp := eliminated n p t in
   measure n p true coin t = (negb (contains n tmp (z_first n)), n, map (unperm_row n p) tmp) /\
   same_group n tmp (framed n p t) /\
   (forall r, In r tmp -> get r 0 = false).
 Proof. exact meas_determined_framed. Qed.
-Print Assumptions C14_meas_determined_partial.
+Print Assumptions C14_meas_determined_framed.
 
 (* towards repeatability: after an in-place random-branch measurement no generator carries X/Y on the measured qubit,
    and such a tableau is sent to the deterministic branch (whose result has the same group, see above) *)
-Theorem C14_meas_repeat_partial_1 : forall n coin tmp, 1 <= n -> wf_tab n tmp ->
+Theorem C14_after_random_col0_clear : forall n coin tmp, 1 <= n -> wf_tab n tmp ->
   (forall j, 1 <= j < length tmp -> get (nth j tmp []) 0 = false) ->
   col0_clear (core_inplace n coin tmp).
 Proof. exact core_inplace_col0. Qed.
-Print Assumptions C14_meas_repeat_partial_1.
-Theorem C14_meas_repeat_partial_2 : forall n u, 1 <= n -> col0_clear u -> get (nth 0 (gauss n u) []) 0 = false.
+Print Assumptions C14_after_random_col0_clear.
+Theorem C14_col0_clear_goes_deterministic : forall n u, 1 <= n -> col0_clear u -> get (nth 0 (gauss n u) []) 0 = false.
 Proof. exact col0_clear_deterministic. Qed.
-Print Assumptions C14_meas_repeat_partial_2.
+Print Assumptions C14_col0_clear_goes_deterministic.
 
 (* random branch: the generators that are kept (rows 1.. after elimination) generate exactly the elements of the
-   pre-measurement group that commute with Z on the measured qubit; with C14_meas_random_partial the in-place result is
+   pre-measurement group that commute with Z on the measured qubit; with C14_meas_random_framed the in-place result is
    therefore  < (-1)^coin Z_0 > . { g in G : g commutes with Z_0 }  in the measured-qubit-first frame *)
 Theorem C14_meas_random_kept_part : forall n p t, 1 <= n ->
   commuting n (framed n p t) -> random_branch n p t = true ->
@@ -94,3 +89,138 @@ Theorem C14_bell_both_outcomes :
   snd (measure 2 1 true true bell) = [[false; false; false; true; true]; [false; false; true; false; true]].
 Proof. exact bell_measured_both_outcomes. Qed.
 Print Assumptions C14_bell_both_outcomes.
+
+(* ================= the column permutation is a relabelling of qubit positions (Stab/PermProof.v) =============== *)
+Theorem C14_perm_row_decode : forall n p r, p < n ->
+  decode n (perm_row n p r) = (fst (decode n r), move_front p (snd (decode n r))).
+Proof. exact perm_row_decode. Qed.
+Print Assumptions C14_perm_row_decode.
+Theorem C14_unperm_row_decode : forall n p r, p < n ->
+  decode n (unperm_row n p r) = (fst (decode n r), move_back p (snd (decode n r))).
+Proof. exact unperm_row_decode. Qed.
+Print Assumptions C14_unperm_row_decode.
+Theorem C14_move_back_front : forall p l, p < length l -> move_back p (move_front p l) = l.
+Proof. exact move_back_front. Qed.
+Print Assumptions C14_move_back_front.
+Theorem C14_perm_group : forall n p t, p < n -> wf_tab n t ->
+  forall h, gen n (map (perm_row n p) t) h <-> exists h0, gen n t h0 /\ h = pframe p h0.
+Proof. exact perm_group. Qed.
+Print Assumptions C14_perm_group.
+Theorem C14_unperm_group : forall n p t, p < n -> wf_tab n t ->
+  forall h, gen n (map (unperm_row n p) t) h <-> exists h0, gen n t h0 /\ h = punframe p h0.
+Proof. exact unperm_group. Qed.
+Print Assumptions C14_unperm_group.
+
+(* ================= original qubit order ========================================================================= *)
+(* random branch, in place: outcome = coin (both coins), the result has as many commuting well-formed generators, and
+   generates exactly  { h, (-1)^coin Z_p h : h in G, h commutes with Z_p } *)
+Theorem C14_meas_random : forall n p coin t, p < n -> wf_tab n t -> commuting n t -> random_branch n p t = true ->
+  exists res, measure n p true coin t = (coin, n, res) /\
+    wf_tab n res /\ commuting n res /\ length res = length t /\
+    forall g, gen n res g <->
+      exists h, gen n t h /\ anti_l (snd h) (zp n p) = false /\ (g = h \/ g = pmul (ph_of_sign coin, zp n p) h).
+Proof. exact meas_random. Qed.
+Print Assumptions C14_meas_random.
+
+(* deterministic branch, in place: group unchanged, every element of the group commutes with Z_p *)
+Theorem C14_meas_determined : forall n p coin t, p < n -> wf_tab n t -> commuting n t -> random_branch n p t = false ->
+  exists res, measure n p true coin t = (negb (contains n (eliminated n p t) (z_first n)), n, res) /\
+    wf_tab n res /\ commuting n res /\ length res = length t /\
+    same_group n res t /\
+    (forall h, gen n t h -> anti_l (snd h) (zp n p) = false).
+Proof. exact meas_determined. Qed.
+Print Assumptions C14_meas_determined.
+
+(* the branch taken is the deterministic one as soon as the whole group commutes with Z_p *)
+Theorem C14_commuting_group_goes_deterministic : forall n p t, p < n -> wf_tab n t -> commuting n t ->
+  (forall h, gen n t h -> anti_l (snd h) (zp n p) = false) -> random_branch n p t = false.
+Proof. exact random_branch_false_of_commute. Qed.
+Print Assumptions C14_commuting_group_goes_deterministic.
+
+(* deterministic branch: outcome 0 iff +Z_p is in the group (in place and destructive); for a full stabilizer state
+   (n generators) one of +Z_p, -Z_p is in the group and outcome 1 iff -Z_p is *)
+Theorem C14_meas_determined_outcome : forall n p ip coin t, p < n -> valid n t -> random_branch n p t = false ->
+  (fst (fst (measure n p ip coin t)) = false <-> gen n t (zel P0 n p)).
+Proof. exact meas_determined_outcome. Qed.
+Print Assumptions C14_meas_determined_outcome.
+Theorem C14_meas_determined_pm : forall n p t, p < n -> valid n t -> length t = n -> random_branch n p t = false ->
+  gen n t (zel P0 n p) \/ gen n t (zel P2 n p).
+Proof. exact meas_determined_pm. Qed.
+Print Assumptions C14_meas_determined_pm.
+Theorem C14_meas_determined_outcome_true : forall n p ip coin t, p < n -> valid n t -> length t = n ->
+  random_branch n p t = false ->
+  (fst (fst (measure n p ip coin t)) = true <-> gen n t (zel P2 n p)).
+Proof. exact meas_determined_outcome_true. Qed.
+Print Assumptions C14_meas_determined_outcome_true.
+(* the linear-algebra fact behind it: n independent pairwise commuting vectors of F_2^2n span a maximal isotropic space *)
+Theorem C14_isotropic_maximal : forall n A v, length A = n ->
+  (forall a b, In a A -> In b A -> symp n a b = false) -> lindep (2 * n) A ->
+  (forall a, In a A -> symp n a v = false) -> inspan (2 * n) A (get v).
+Proof. exact isotropic_maximal. Qed.
+Print Assumptions C14_isotropic_maximal.
+
+(* destructive measurement: the (n-1)-qubit result generates exactly the elements of the in-place group that act as I
+   on qubit p, with position p deleted and the other positions in their original order; commuting, independent *)
+Theorem C14_meas_random_destructive : forall n p coin t, p < n -> wf_tab n t -> commuting n t ->
+  random_branch n p t = true ->
+  exists res resd,
+    measure n p true coin t = (coin, n, res) /\ measure n p false coin t = (coin, n - 1, resd) /\
+    wf_tab (n - 1) resd /\ commuting (n - 1) resd /\ length resd = length t - 1 /\
+    (forall g, gen (n - 1) resd g <->
+       exists g', gen n res g' /\ nth p (snd g') PI = PI /\ g = (fst g', remove_at p (snd g'))) /\
+    (independent n t -> independent n res /\ independent (n - 1) resd).
+Proof. exact meas_random_destructive. Qed.
+Print Assumptions C14_meas_random_destructive.
+Theorem C14_meas_determined_destructive : forall n p coin t, p < n -> valid n t -> length t = n ->
+  random_branch n p t = false ->
+  exists res resd,
+    measure n p true coin t = (fst (fst (measure n p true coin t)), n, res) /\
+    measure n p false coin t = (fst (fst (measure n p true coin t)), n - 1, resd) /\
+    same_group n res t /\
+    wf_tab (n - 1) resd /\ commuting (n - 1) resd /\ independent (n - 1) resd /\ length resd = n - 1 /\
+    (forall g, gen (n - 1) resd g <->
+       exists g', gen n res g' /\ nth p (snd g') PI = PI /\ g = (fst g', remove_at p (snd g'))).
+Proof. exact meas_determined_destructive. Qed.
+Print Assumptions C14_meas_determined_destructive.
+
+(* repeatability: measuring the same qubit of the in-place result again (any coin) returns the same outcome, takes the
+   deterministic branch and leaves the group unchanged; the in-place result of a valid tableau is valid *)
+Theorem C14_meas_inplace_valid : forall n p coin t, p < n -> valid n t -> valid n (snd (measure n p true coin t)).
+Proof. exact meas_inplace_valid. Qed.
+Print Assumptions C14_meas_inplace_valid.
+Theorem C14_meas_repeat : forall n p c1 c2 t, p < n -> valid n t ->
+  let m1 := measure n p true c1 t in
+  let m2 := measure n p true c2 (snd m1) in
+  fst (fst m2) = fst (fst m1) /\ snd (fst m2) = n /\ same_group n (snd m2) (snd m1) /\
+  random_branch n p (snd m1) = false.
+Proof. exact meas_repeat. Qed.
+Print Assumptions C14_meas_repeat.
+
+(* a full stabilizer state (n valid generators on n qubits) stays one: in place on n qubits, destructively on n-1 *)
+Theorem C14_meas_inplace_full : forall n p coin t, p < n -> valid n t -> length t = n ->
+  let m := measure n p true coin t in snd (fst m) = n /\ valid n (snd m) /\ length (snd m) = n.
+Proof. exact meas_inplace_full. Qed.
+Print Assumptions C14_meas_inplace_full.
+Theorem C14_meas_destructive_full : forall n p coin t, p < n -> valid n t -> length t = n ->
+  let m := measure n p false coin t in snd (fst m) = n - 1 /\ valid (n - 1) (snd m) /\ length (snd m) = n - 1.
+Proof. exact meas_destructive_full. Qed.
+Print Assumptions C14_meas_destructive_full.
+
+(* non-vacuity: GHZ (random branch, destructive result computed), |0>|1> (deterministic, outcome 1), repeat *)
+Theorem C14_nonvacuous_ghz :
+  1 < 3 /\ valid 3 ghz3 /\ length ghz3 = 3 /\ random_branch 3 1 ghz3 = true /\
+  measure 3 1 false true ghz3 = (true, 2, [[false; false; false; true; true]; [false; false; true; true; false]]) /\
+  fst (fst (measure 3 1 false false ghz3)) = false.
+Proof. exact ghz3_random. Qed.
+Print Assumptions C14_nonvacuous_ghz.
+Theorem C14_nonvacuous_zero_one :
+  1 < 2 /\ valid 2 zero_one /\ length zero_one = 2 /\ random_branch 2 1 zero_one = false /\
+  measure 2 1 false false zero_one = (true, 1, [[false; true; false]]) /\
+  measure 2 1 true false zero_one = (true, 2, [[false; false; false; true; true]; [false; false; true; false; false]]).
+Proof. exact zero_one_determined. Qed.
+Print Assumptions C14_nonvacuous_zero_one.
+Theorem C14_nonvacuous_repeat :
+  fst (fst (measure 3 1 true false (snd (measure 3 1 true true ghz3)))) = true /\
+  fst (fst (measure 3 1 true true (snd (measure 3 1 true false ghz3)))) = false.
+Proof. exact ghz3_repeat. Qed.
+Print Assumptions C14_nonvacuous_repeat.
